@@ -370,3 +370,42 @@ func H_C06_file_unexported_and_identical() {
 	vAssert(got == want, "C06 unexported / identical fields: each annotated field is merged at its own position")
 	vReach("end")
 }
+
+// ---- round 4 ----
+
+// key names as they occur in real files (the symbolic keys above are 1..2 bytes of \w): the keys protoc-gen-go
+// itself writes, the usual library keys, keys that are prefixes / suffixes of each other, keys with digits,
+// underscores and upper case; every ordered pair (existing key, injected key) with symbolic values
+var vC06Keys = []string{"protobuf", "json", "protobuf_key", "protobuf_val", "protobuf_oneof", "valid", "xml", "yaml", "bson", "gorm", "form",
+	"binding", "validate", "db", "mapstructure", "json2", "JSON", "_", "x_y", "protobuf2", "key", "val", "oneof", "tag", "inject", "go", "type", "string"}
+
+func vC06RealKeys(lo, hi int) {
+	i := lo + vndChoice("old", hi-lo)
+	j := vndChoice("inj", len(vC06Keys))
+	old := []vItem{{vC06Keys[i], vTagVal("ov0", 2, true)}, {"zzz", "keep"}}
+	inj := []vItem{{vC06Keys[j], vTagVal("iv0", 2, true)}}
+	oldText := vItemsText(old, " ")
+	injText := vItemsText(inj, " ")
+	expr := "F string `" + oldText + "`"
+	area := textArea{Start: 1, End: 1 + len(expr), CurrentTag: oldText, InjectTag: injText}
+	got := string(injectTag([]byte(expr+"\n"), area))
+	want := "F string `" + vItemsText(vMerge(old, inj), " ") + "`\n"
+	vAssert(got == want, "C06 merge with real key names: the injected key carries the comment's value whatever it is called")
+	vReach("end")
+}
+
+func H_C06_real_keys_00() { vC06RealKeys(0, 2) }
+func H_C06_real_keys_01() { vC06RealKeys(2, 4) }
+func H_C06_real_keys_02() { vC06RealKeys(4, 6) }
+func H_C06_real_keys_03() { vC06RealKeys(6, 8) }
+func H_C06_real_keys_04() { vC06RealKeys(8, 10) }
+func H_C06_real_keys_05() { vC06RealKeys(10, 12) }
+func H_C06_real_keys_06() { vC06RealKeys(12, 14) }
+func H_C06_real_keys_07() { vC06RealKeys(14, 16) }
+func H_C06_real_keys_08() { vC06RealKeys(16, 18) }
+func H_C06_real_keys_09() { vC06RealKeys(18, 20) }
+func H_C06_real_keys_10() { vC06RealKeys(20, 22) }
+func H_C06_real_keys_11() { vC06RealKeys(22, 24) }
+func H_C06_real_keys_12() { vC06RealKeys(24, 26) }
+func H_C06_real_keys_13() { vC06RealKeys(26, 28) }
+
